@@ -353,6 +353,20 @@ fn run(ctx: &mut Ctx) {
             judge_ruleset(ctx, &rules, &labels, facts, FaultPlan::default(), "input-shapes");
         }
     }
+    // big rulesets (9..80 rules) with unusual rule names
+    let odd_names = ["", " ", "rule", "Rule", "rule ", "r\n2", "名前", "0", "facts", "name", "description", "a-b", "__probe"];
+    for _ in 0..ctx.tier.of(40, 400) {
+        let n = 9 + rng.below(72);
+        let mut rules = vec![];
+        let mut labels = vec![];
+        for i in 0..n {
+            let t = if rng.chance(1, 4) { &tpl[bad[rng.below(bad.len())]] } else { &tpl[ok[rng.below(ok.len())]] };
+            let name = if i < odd_names.len() { odd_names[i].to_string() } else { format!("rule {i}") };
+            rules.push((name, t.1.clone()));
+            labels.push(t.0);
+        }
+        judge_ruleset(ctx, &rules, &labels, &ins[rng.below(ins.len())], FaultPlan::default(), "big-rulesets");
+    }
     // injected user-function failures at each invocation index
     for _ in 0..ctx.tier.of(5_000, 50_000) {
         let n = 2 + rng.below(6);
